@@ -329,6 +329,33 @@ def build(prop_id, log=None, thorough=False):
                         st['translator_scope'] = 'generated modules of this property: ' + ', '.join(hit)
             except Exception as e:
                 st['translator_scope'] = 'all (no attribution: %s)' % e
+        # translation validation BY TESTING of the function-body translator (tools/fn_selftest.py): the translated
+        # regions are executed as Python on random inputs and compared with the generated Gallina; cached by the
+        # content of the generated modules, the specs and the translator.  Informational: a mismatch is a defect of
+        # the translator / self-test (trusted base), not of /repo, and is reported in the evidence, never as a violation.
+        try:
+            import hashlib, glob as _glob
+            h = hashlib.sha256()
+            for fpath in sorted(_glob.glob(os.path.join(COQ, 'theories', 'Gen', 'Fn*.v')) +
+                                _glob.glob(os.path.join(VERIF, 'tools', 'fnspecs', '*.py')) +
+                                [os.path.join(VERIF, 'tools', 'py2v_fn.py'), os.path.join(VERIF, 'tools', 'fn_selftest.py')]):
+                h.update(open(fpath, 'rb').read())
+            key = h.hexdigest()
+            stf = os.path.join(COQ, 'theories', 'Gen', '.fn_selftest.json')
+            cur = json.load(open(stf)) if os.path.exists(stf) else {}
+            if cur.get('key') != key and st['make_ok']:
+                sh('PYTHONPATH=%s PYTHONWARNINGS=ignore timeout 1500 %s %s' % (REPO, PY, os.path.join(VERIF, 'tools', 'fn_selftest.py')), timeout=1600)
+                cur = json.load(open(stf)) if os.path.exists(stf) else {}
+                cur['key'] = key
+                json.dump(cur, open(stf, 'w'), indent=1)
+            mine = gen_deps_of(prop_id) or set()
+            st['translator_selftest'] = {
+                'all': {k: (len(v) if isinstance(v, (list, dict)) else v) for k, v in cur.items() if k in ('specs', 'executed', 'cases', 'mismatches', 'not_executable')},
+                'this_property_mismatches': [m for m in cur.get('mismatches', []) if m.get('spec', '').split('.')[0] in mine][:5],
+                'this_property_not_executable': {k: v for k, v in cur.get('not_executable', {}).items() if k.split('.')[0] in mine},
+            }
+        except Exception as e:
+            st['translator_selftest'] = {'error': str(e)[:300]}
         vo = os.path.join(COQ, 'theories', 'Props', prop_id + '.vo')
         src = os.path.join(COQ, 'theories', 'Props', prop_id + '.v')
         st['theorems'] = theorems_of(prop_id)
@@ -453,6 +480,7 @@ TRUSTED_BASE = [
     'Coq 8.16.1 kernel (coqc; coqchk re-check in the thorough tier); no native_compute',
     'axioms: none for Z/Q/list theorems (each Print Assumptions output is parsed on every run; only the four stdlib Reals/classical axioms are whitelisted, for RealFacts)',
     'translator tools/py2v_data.py (constants/defaults/regex sources from /repo into Gen/*.v)',
+    'function-body translator tools/py2v_fn.py + specs tools/fnspecs/*.py (which source expressions are opaque typed inputs, which statement ranges are opaque; / read as the total Qdiv with the zero-divisor case recorded as a guard; floats read as exact rationals); validated on every build by tools/fn_selftest.py (the translated regions run as Python on random inputs against the generated Gallina: coverage.translator_selftest)',
     'extraction with ExtrOcamlBasic directives only; coq/ocaml/driver.ml; OCaml 4.13.1',
     'the Python harness: generators, canonicalisation, 1e-9 float/rational comparison rule, oracle suppliers',
     'the Python code is modelled, not verified: the tie is the differential correspondence on generated inputs',
@@ -602,6 +630,8 @@ class Checker:
         }
         if 'coqchk' in st:
             cov['coqchk'] = st['coqchk']
+        if 'translator_selftest' in st:
+            cov['translator_selftest'] = st['translator_selftest']
         cov.update(self.extra)
         ev = {
             'property_id': self.id, 'tier': self.tier, 'seed': self.seed, 'level': self.level,
